@@ -442,7 +442,7 @@ __denega(dexpr_t root)
 			break;
 		case DEX_DISJ:
 			/* !(a|b) -> !a & !b */
-			root->type = DEX_DISJ;
+			root->type = DEX_CONJ;
 			break;
 		case DEX_VAL:
 			__nega_kv(root->kv);
@@ -576,22 +576,22 @@ dexkv_matches_p(const_dexkv_t dkv, struct dt_dt_s d)
 	/* now do the actual comparison */
 	switch (dkv->op) {
 	case OP_EQ:
-		res = dkv->s == cmp;
+		res = cmp == dkv->s;
 		break;
 	case OP_LT:
-		res = dkv->s < cmp;
+		res = cmp < dkv->s;
 		break;
 	case OP_LE:
-		res = dkv->s <= cmp;
+		res = cmp <= dkv->s;
 		break;
 	case OP_GT:
-		res = dkv->s > cmp;
+		res = cmp > dkv->s;
 		break;
 	case OP_GE:
-		res = dkv->s >= cmp;
+		res = cmp >= dkv->s;
 		break;
 	case OP_NE:
-		res = dkv->s != cmp;
+		res = cmp != dkv->s;
 		break;
 	case OP_TRUE:
 		res = true;
